@@ -266,23 +266,42 @@ func (t *Task) latestDependency(pg wpg.Conn) (uint64, []byte, error) {
 		select num, hash
 		from latest
 		order by num asc
-		limit 1;
 	`
-	num, hash := uint64(0), []byte{}
-	err := pg.QueryRow(
+	rows, err := pg.Query(
 		t.ctx,
 		q,
 		t.srcName,
 		t.destConfig.Dependencies,
-	).Scan(&num, &hash)
-	switch {
-	case errors.Is(err, pgx.ErrNoRows):
-		return 0, nil, nil
-	case err != nil:
+	)
+	if err != nil {
 		return 0, nil, err
-	default:
-		return num, hash, nil
 	}
+	defer rows.Close()
+	var (
+		nrows     int
+		num, hash = uint64(0), []byte{}
+	)
+	for rows.Next() {
+		if nrows == 0 {
+			if err := rows.Scan(&num, &hash); err != nil {
+				return 0, nil, err
+			}
+		}
+		nrows++
+	}
+	if err := rows.Err(); err != nil {
+		return 0, nil, err
+	}
+	// Every dependency must have recorded a position. One that
+	// hasn't started yet means there is nothing to process.
+	var deps = map[string]struct{}{}
+	for _, name := range t.destConfig.Dependencies {
+		deps[name] = struct{}{}
+	}
+	if nrows < len(deps) {
+		return 0, nil, nil
+	}
+	return num, hash, nil
 }
 
 func (t *Task) latest(ctx context.Context, pg wpg.Conn) (uint64, []byte, error) {
